@@ -841,7 +841,7 @@ func (Area) Gen(r *rand.Rand, tier string, emit func(string)) {
 	}
 
 	// 3. seeded random histories, biased towards re-adding after failures/removals with calls in flight
-	n, maxOps, nNames := 250, 12, 3
+	n, maxOps, nNames := 1200, 12, 3
 	if tier == "thorough" {
 		n, maxOps, nNames = 4000, 30, 4
 	}
@@ -856,6 +856,19 @@ func (Area) Gen(r *rand.Rand, tier string, emit func(string)) {
 		for j := 0; j < l; j++ {
 			i := r.Intn(nNames)
 			x := r.Intn(100)
+			if len(present) == 0 && r.Intn(3) != 0 {
+				x = r.Intn(30) // nothing there yet: mostly start by adding
+			}
+			pickPresent := func() {
+				if len(present) > 0 && r.Intn(4) != 0 {
+					keys := make([]int, 0, len(present))
+					for k := range present {
+						keys = append(keys, k)
+					}
+					sort.Ints(keys)
+					i = keys[r.Intn(len(keys))]
+				}
+			}
 			switch {
 			case x < 30:
 				m := "o"
@@ -895,24 +908,37 @@ func (Area) Gen(r *rand.Rand, tier string, emit func(string)) {
 					}
 				}
 			case x < 62:
-				if len(looked) > 0 && r.Intn(3) != 0 { // mostly names that were looked up before
+				if len(looked) > 0 && r.Intn(4) == 0 { // sometimes names that were looked up before
 					i = looked[r.Intn(len(looked))]
 				}
+				if len(present) > 0 && r.Intn(3) != 0 { // and mostly names that are (believed) present
+					keys := make([]int, 0, len(present))
+					for k := range present {
+						keys = append(keys, k)
+					}
+					sort.Ints(keys)
+					i = keys[r.Intn(len(keys))]
+				}
 				ops = append(ops, fmt.Sprintf("G%d", i))
-				looked = append(looked, i)
+				if present[i] {
+					looked = append(looked, i)
+				}
 			case x < 82:
-				if len(looked) > 0 && r.Intn(5) != 0 { // mostly on a kept connection (possibly of a removed target)
+				if len(looked) > 0 && r.Intn(8) != 0 { // mostly on a kept connection (possibly of a removed target)
 					i = looked[r.Intn(len(looked))]
 				}
 				ops = append(ops, fmt.Sprintf("S%d", i))
 			case x < 90:
-				if len(looked) > 0 && r.Intn(5) != 0 {
+				if len(looked) > 0 && r.Intn(8) != 0 {
 					i = looked[r.Intn(len(looked))]
 				}
 				ops = append(ops, fmt.Sprintf("C%d", i))
 			default:
+				pickPresent()
 				ops = append(ops, fmt.Sprintf("G%d", i), fmt.Sprintf("C%d", i))
-				looked = append(looked, i)
+				if present[i] {
+					looked = append(looked, i)
+				}
 			}
 		}
 		if router {
